@@ -5,16 +5,19 @@ ENGINES = {
         model='coq/Model/EsClient.v (C14), coq/Model/Producer.v (C15)',
         rule='cases from harness/e7 Gen; focus C14: elasticsearch scenarios (selector 14: batch-size 1..5, max retries 1..3, index-workers 1..3, '
              'up to 24 ops = index requests / wrong-typed payloads / pauses of arrivals, per-document per-attempt scripts 2xx / retryable / mapping / '
-             'non-2xx-without-error, late responses in a few cases, whole-request errors only in the thorough tier, clean Shutdown, Shutdown '
+             'non-2xx-without-error, late responses in a few cases, whole-request errors only in the thorough tier, clean Shutdown (optionally with every bulk request HELD by the harness while the ops run - timer flushes of partial batches and '
+             'further arrivals happen while earlier requests are outstanding - and released before the end), Shutdown '
              'right after the last arrival, or the latter with all bulk requests held in flight until Shutdown has returned), run against the real Elasticsearch node (Setup, ProcessAsync, Shutdown) over a scripted bulk-service '
              'factory; focus C15: produce requests and error '
              'reports (selector 15: empty / binary / large payloads, topic override present or absent, configured topic present or '
              'absent, plain / wrapped / structured / pointer errors, marshalable and unmarshalable event payloads, both report '
-             'forms); a case is non-trivial when the model run hit a branch tag >= 10; distinct = distinct input trees',
+             'forms; single calls and sequences of 1..6 calls of both kinds on ONE errorkafkaproducer instance whose records are read from the '
+             'channel only after the last call, record k judged against call k); a case is non-trivial when the model run hit a branch tag >= 10; distinct = distinct input trees',
         tags={'1': 'wrong-typed payload', '2': 'no topic from either place', '3': 'outside the C15 quantifier (nil error / unmarshalable errorinfo)',
               '10': 'record on the request topic', '11': 'record on the configured topic', '12': 'structured error with errorinfo',
               '13': 'structured error without errorinfo', '14': 'plain error', '15': 'wrapped error', '16': 'unmarshalable event payload',
-              '17': 'empty message', '18': 'pointer to FBError', '19': "executor's report form (Event = *firebolt.Event)",
+              '17': 'empty message', '18': 'pointer to FBError', '19': "executor's report form (Event = *firebolt.Event)", '40': 'C15: sequence of >= 2 calls on one producer instance, records read after the last call',
+              '41': 'C15: sequence with >= 2 error reports',
               '4': 'C14: outside the quantifier (duplicate ids / zero sizes)', '5': 'C14: skipped, the harness saw a scheduling stall longer than batch-max-wait/2 '
               'between two arrivals of one batch (batch composition would be timing-dependent); re-run up to 3 times first',
               '20': 'a document was re-sent', '21': 'retries exhausted -> ES_INDEX_ERROR', '22': 'mapping error answered at once',
